@@ -1,6 +1,318 @@
-"""cgreen-runner checks (C09, and the runner part of C01)."""
-CHECKS = {}
+"""cgreen-runner checks: C09 (runs exactly the defined and selected tests) and the runner part
+of C01 (exit status = OR over libraries)."""
+import ctypes, os, re, shutil, subprocess
+from concurrent.futures import ThreadPoolExecutor
+import vlib
+
+TRUSTED = [
+    "Coq 8.16.1 kernel (full .vo build; vm_compute only in examples; no native_compute)",
+    "RunnerTool.v is a hand-written Gallina model of tools/test_item.c, tools/runner.c and main() of tools/cgreen-runner.c; tied to the code by (a) translated facts: the discoverer's marker strings, the shape of spec_name(), which name run_tests() hands to run_single_test(); (b) running the real cgreen-runner on generated libraries (differential testing)",
+    "extraction: ExtrOcamlBasic only; ocaml/h_tool.ml glue",
+    "correspondence: generated C test libraries whose tests append their own name to a log (tools/check_runner.py), compiled with gcc against /repo's headers, run by the cgreen-runner built from /repo's working tree; glob vs fnmatch(3) through ctypes",
+    "modelled, not verified: nm(1) output format, fnmatch(3) (model: literal characters and '*'), dlopen/dlsym, access(2), the run of the selected tests itself (runner model, C01-C03)",
+]
+
+CFLAGS = ["-shared", "-fPIC", "-O0", "-w"]
+
+
+def sx(b):
+    return "(" + " ".join(str(x) for x in b) + ")" if b else "e"
+
+
+HEAD = ["#include <cgreen/cgreen.h>", "#include <stdio.h>", "#include <stdlib.h>",
+        "static void logit(const char *s) { const char *p = getenv(\"VERIF_EXEC_LOG\"); if (p) { FILE *f = fopen(p, \"a\"); if (f) { fprintf(f, \"%s\\n\", s); fclose(f); } } }"]
+
+
+def lib_sources(tests):
+    """tests: list of (ctx or None, name, ok) -> {file suffix: source}; one translation unit per
+    context (Describe() defines file-static fixtures)"""
+    files = {}
+    for c in sorted({c or "" for c, n, ok in tests}):
+        out = list(HEAD)
+        if c:
+            out.append("Describe(%s); BeforeEach(%s) {} AfterEach(%s) {}" % (c, c, c))
+        for c2, n, ok in tests:
+            if (c2 or "") != c:
+                continue
+            head = "Ensure(%s, %s)" % (c, n) if c else "Ensure(%s)" % n
+            out.append('%s { logit("%s:%s"); assert_that(%d, is_equal_to(1)); }' % (head, c or "default", n, 1 if ok else 0))
+        files[c or "default_"] = "\n".join(out) + "\n"
+    return files
+
+
+def lib_source(tests):
+    return "\n".join("/* ---- %s.c ---- */\n%s" % kv for kv in lib_sources(tests).items())
+
+
+def build_lib(build, d, name, tests):
+    srcs = []
+    for suffix, text in lib_sources(tests).items():
+        src = os.path.join(d, "%s_%s.c" % (name, suffix))
+        open(src, "w").write(text)
+        srcs.append(src)
+    so = os.path.join(d, name + ".so")
+    p = vlib.sh(["gcc"] + CFLAGS + build["inc"] + srcs + ["-o", so, "-L" + build["libdir"], "-lcgreen"], timeout=300)
+    if p.returncode != 0:
+        raise vlib.Infra("generated library failed to compile:\n" + p.stdout[-1500:])
+    return so
+
+
+def run_runner(build, d, args, timeout=120):
+    log = os.path.join(d, "exec.log")
+    if os.path.exists(log):
+        os.remove(log)
+    env = dict(os.environ)
+    env.update({"VERIF_EXEC_LOG": log, "LD_LIBRARY_PATH": build["libdir"], "ASAN_OPTIONS": "detect_leaks=0"})
+    env.pop("CGREEN_NO_FORK", None); env.pop("CGREEN_PER_TEST_TIMEOUT", None)
+    try:
+        p = subprocess.run([build["runner"]] + args, cwd=d, env=env, stdout=subprocess.PIPE, stderr=subprocess.STDOUT, timeout=timeout)
+        rc, out = p.returncode, p.stdout.decode("latin-1")
+    except subprocess.TimeoutExpired as ex:
+        rc, out = None, (ex.stdout or b"").decode("latin-1")
+    executed = [l.strip() for l in open(log)] if os.path.exists(log) else []
+    return rc, out, executed
+
+
+def glob_py(p, s):
+    return re.fullmatch("".join(".*" if ch == "*" else re.escape(ch) for ch in p), s, re.S) is not None
+
+
+def selected_py(tests, pat):
+    if pat is None:
+        return list(tests)
+    cp, npat = pat.split(":", 1) if ":" in pat else ("default", pat)
+    return [t for t in tests if glob_py(cp, t[0] or "default") and glob_py(npat, t[1])]
+
+
+CTX = ["Runner", "Run", "Runner2", "Alpha", "A", "Sta", "Stack"]
+NAMES = ["can_match_test_name", "can", "can_run", "cannot", "unexpected_call", "u", "works", "work", "a", "ab", "b_a", "zz9", "x1", "x10", "x"]
+
+
+def gen_libs(chk):
+    rng = chk.rng
+    libs = []
+    counts = [1, 2, 5, 23] + ([99, 100, 101] if chk.tier == "quick" else [99, 100, 101, 199, 200, 201])
+    for k, n in enumerate(counts):
+        tests, seen = [], set()
+        nctx = rng.choice([1, 2, 3, 5]) if n > 1 else 1
+        ctxs = rng.sample(CTX, nctx)
+        use_default = n > 2 and rng.random() < 0.5
+        while len(tests) < n:
+            c = rng.choice(ctxs + ([None] if use_default else []))
+            base = rng.choice(NAMES)
+            nm = base if len(tests) < len(NAMES) else "%s_%d" % (base, len(tests))
+            if (c, nm) in seen:
+                continue
+            seen.add((c, nm))
+            tests.append((c, nm, True))
+        # the same test name in every context of the library
+        if nctx > 1:
+            for c in ctxs:
+                if (c, "shared") not in seen:
+                    seen.add((c, "shared")); tests.append((c, "shared", True))
+            if use_default:
+                tests.append((None, "shared", True))
+        # one failing test in some libraries
+        if k % 3 == 2:
+            i = rng.randrange(len(tests))
+            tests[i] = (tests[i][0], tests[i][1], False)
+        libs.append(("lib%d" % k, tests))
+    return libs
+
+
+def patterns_for(rng, tests, tier):
+    pats = [None]
+    t = rng.choice(tests)
+    c, n = t[0] or "default", t[1]
+    pats += ["%s:%s" % (c, n), "*:*", "%s:*" % c, "*:%s" % n, "%s*:%s*" % (c[:1], n[:1]), "%s:%s*" % (c, n[:2]),
+             "%s:*%s" % (c, n[-2:]), "nosuch:*", "%s:nosuch" % c, "*:nosuch*", "*%s:*%s" % (c[1:], n[1:])]
+    if any(x[1] == "shared" for x in tests):
+        pats += ["*:shared", "%s*:shared" % c[:1], "*%s:shared" % c[-1:]]
+    if not t[0]:
+        pats += [n, n[:1] + "*", "*" + n[-1:]]
+    else:
+        pats += [n]                    # no colon: the default context only
+    # patterns matching exactly one test
+    names = [(x[0] or "default", x[1]) for x in tests]
+    for _ in range(3):
+        c2, n2 = rng.choice(names)
+        for cut in range(1, len(n2) + 1):
+            p = "%s:%s*" % (c2, n2[:cut])
+            if len(selected_py(tests, p)) == 1:
+                pats.append(p)
+                break
+    out, seen = [], set()
+    for p in pats:
+        if p not in seen:
+            seen.add(p); out.append(p)
+    if tier == "thorough":
+        return out
+    keep = [p for p in out if p is not None and p.endswith(":shared")][:2]
+    rest = [p for p in out[1:] if p not in keep]
+    return out[:1] + keep + rng.sample(rest, min(6, len(rest)))
+
+
+def model_main(args, libtable):
+    """args: list of str; libtable: {name: (exists, tests)}"""
+    libs = " ".join("(%s %d (%s))" % (sx(n.encode()), 1 if ex else 0, " ".join("(%s %s %d)" % (sx((c or "default").encode()), sx(nm.encode()), 1 if ok else 0) for c, nm, ok in ts))
+                    for n, (ex, ts) in libtable.items())
+    return "(M (%s) (%s))" % (" ".join(sx(a.encode()) for a in args), libs)
+
+
+def run_C09(chk, with_proof=True):
+    build = vlib.build_repo("hooks")
+    if with_proof:
+        chk.prove(["Properties_C09.v"])
+        chk.cov["trusted_base"] = TRUSTED + ["axioms: see coverage.print_assumptions"]
+    rng = chk.rng
+    d = vlib.private_dir("c09")
+    try:
+        libs = gen_libs(chk)
+        with ThreadPoolExecutor(vlib.NPROC) as ex:
+            list(ex.map(lambda l: build_lib(build, d, l[0], l[1]), libs))
+        table = {n + ".so": (True, ts) for n, ts in libs}
+        # ---- discovery: every defined test exactly once, names recovered
+        for n, ts in libs:
+            rc, out, _ = run_runner(build, d, ["--no-run", "--verbose", n + ".so"])
+            found = sorted(re.findall(r"Discovered (\S+):(\S+) \((\S+)\)", out))
+            want = sorted(((c or "default"), nm, "CgreenSpec__%s__%s__" % (c or "default", nm)) for c, nm, ok in ts)
+            chk.case(("discover", n, len(ts)))
+            chk.count("discover:n=%d" % len(ts))
+            if found != want:
+                miss = [w for w in want if w not in found][:3]
+                extra = [f for f in found if f not in want][:3]
+                chk.violation("discovery", "library with %d tests: discovered %d entries; missing %s, unexpected or duplicated %s" % (len(ts), len(found), miss, extra),
+                              {"library_source": lib_source(ts)[:4000], "how": "compile as a shared library, cgreen-runner --no-run --verbose lib.so"})
+            ml = ["(P %s %s)" % (sx((c or "default").encode()), sx(nm.encode())) for c, nm, ok in ts[:40]]
+            for (c, nm, ok), m in zip(ts[:40], vlib.run_model("tool", ml)):
+                chk.cov["disagreements_checked"] += 1
+                if m != "%s:%s" % (c or "default", nm):
+                    chk.disagreement("model parse_spec(mangle %s %s) = %s" % (c, nm, m), {"case": (c, nm)})
+        # ---- selection: library x pattern x reporter option
+        runs = []
+        for n, ts in libs:
+            for pat in patterns_for(rng, ts, chk.tier):
+                opt = rng.choice([[], [], ["--xml", "o"], ["-s", "common"], ["--quiet"], ["--libxml2", "o2"]])
+                runs.append((opt, [(n + ".so", pat)]))
+        # several libraries on one command line, each with or without its own pattern; a missing library
+        for _ in range(6 if chk.tier == "quick" else 60):
+            k = rng.choice([2, 2, 3])
+            chosen = rng.sample(libs, k)
+            pairs = []
+            for n, ts in chosen:
+                pats = patterns_for(rng, ts, "quick")
+                pairs.append((n + ".so", rng.choice(pats)))
+            if rng.random() < 0.3:
+                pairs.insert(rng.randrange(len(pairs) + 1), ("missing%d.so" % rng.randrange(9), None))
+            runs.append((rng.choice([[], ["-s", "all"], ["--xml", "m"]]), pairs))
+        # a pattern on one library and none on the next (and the other way round)
+        for _ in range(4 if chk.tier == "quick" else 30):
+            (n1, t1), (n2, t2), (n3, t3) = rng.sample(libs, 3)
+            p1 = rng.choice([p for p in patterns_for(rng, t1, "quick") if p is not None])
+            p3 = rng.choice([p for p in patterns_for(rng, t3, "quick") if p is not None])
+            runs.append(([], [(n1 + ".so", p1), (n2 + ".so", None)]))
+            runs.append(([], [(n1 + ".so", None), (n2 + ".so", p1 if selected_py(t2, p1) else "*:*")]))
+            runs.append((rng.choice([[], ["--xml", "k"]]), [(n1 + ".so", p1), (n2 + ".so", None), (n3 + ".so", p3)]))
+        runs.append(([], [("missing.so", None)]))
+
+        def do(run):
+            opt, pairs = run
+            dd = os.path.join(d, "r%d" % id(run))
+            os.makedirs(dd, exist_ok=True)
+            args = list(opt)
+            for lib, pat in pairs:
+                args.append(os.path.join("..", lib) if not lib.startswith("missing") else lib)
+                if pat is not None:
+                    args.append(pat)
+            res = run_runner(build, dd, args)
+            shutil.rmtree(dd, ignore_errors=True)
+            return args, res
+        with ThreadPoolExecutor(vlib.NPROC) as ex:
+            results = list(ex.map(do, runs))
+        mlines = []
+        for (opt, pairs), (args, res) in zip(runs, results):
+            margs = []
+            for lib, pat in pairs:
+                margs.append(lib)
+                if pat is not None:
+                    margs.append(pat)
+            t2 = dict(table)
+            for lib, pat in pairs:
+                if lib.startswith("missing"):
+                    t2[lib] = (False, [])
+            used = {lib: t2[lib] for lib, _ in pairs}
+            mlines.append(model_main(margs, used))
+        models = vlib.run_model("tool", mlines)
+        for (opt, pairs), (args, (rc, out, executed)), m in zip(runs, results, models):
+            chk.case((tuple(opt), tuple(pairs)))
+            chk.count("libraries:%d" % len(pairs))
+            chk.count("option:" + (opt[0] if opt else "none"))
+            chk.cov["disagreements_checked"] += 1
+            rp = {"command": "cgreen-runner " + " ".join(args), "exit": rc, "executed": executed[:50], "output": out[-1200:],
+                  "libraries": {lib: lib_source(table[lib][1])[:3000] for lib, _ in pairs if lib in table},
+                  "how": "compile each library source with gcc -shared -fPIC against /repo/include, run the command with VERIF_EXEC_LOG=<file>"}
+            if rc is None:
+                chk.violation("runner-hang", "cgreen-runner did not terminate: %s" % " ".join(args), rp)
+                continue
+            # the property's oracle
+            want_exec, want_fail = [], False
+            for lib, pat in pairs:
+                if lib.startswith("missing"):
+                    want_fail = True
+                    break
+                sel = selected_py(table[lib][1], pat)
+                chk.count("selected:%s" % ("0" if not sel else "1" if len(sel) == 1 else "many"))
+                if not sel:
+                    want_fail = True
+                want_exec += ["%s:%s" % (c or "default", nm) for c, nm, ok in sel]
+                if any(not ok for c, nm, ok in sel):
+                    want_fail = True
+            mfail, mex = m.split(" | ", 1)
+            mexec = []
+            for part in mex.split(" ; "):
+                if " =" in part:
+                    mexec += part.split(" =", 1)[1].split()
+            mexec.sort()
+            if sorted(executed) != mexec or (rc != 0) != (mfail == "1"):
+                chk.disagreement("%s: implementation exit %s executed %d tests, model fail=%s executed %d" % (" ".join(args), rc, len(executed), mfail, len(mexec)), rp)
+            if sorted(executed) != sorted(want_exec):
+                notrun = sorted(set(want_exec) - set(executed))[:4]
+                extra = sorted(set(executed) - set(want_exec))[:4]
+                twice = sorted({x for x in executed if executed.count(x) > 1})[:4]
+                if rc == 0 or extra or twice:
+                    chk.violation("selection" if rc == 0 else "selection-extra", "%s (exit %s): selected but not executed %s, executed but not selected %s, executed more than once %s" % (
+                        " ".join(args), rc, notrun, extra, twice), rp)
+            if (rc != 0) != want_fail:
+                chk.violation("exit-status", "%s: exit status %s, expected %s (nothing selected / missing library / a selected test fails => failure)" % (" ".join(args), rc, "failure" if want_fail else "success"), rp)
+            chk.sample({"command": " ".join(args), "exit": rc, "executed": len(executed)}, limit=5)
+    finally:
+        shutil.rmtree(d, ignore_errors=True)
+    # ---- glob model vs fnmatch(3)
+    libc = ctypes.CDLL(None)
+    libc.fnmatch.argtypes = [ctypes.c_char_p, ctypes.c_char_p, ctypes.c_int]
+    pairs = []
+    for _ in range(1500 if chk.tier == "quick" else 20000):
+        p = "".join(rng.choice("ab_*") for _ in range(rng.choice([0, 1, 2, 3, 5, 8])))
+        s = "".join(rng.choice("ab_") for _ in range(rng.choice([0, 1, 2, 3, 5, 9])))
+        pairs.append((p, s))
+    gm = vlib.run_model("tool", ["(G %s %s)" % (sx(p.encode()), sx(s.encode())) for p, s in pairs])
+    for (p, s), m in zip(pairs, gm):
+        chk.case(("glob", p, s), nontrivial="*" in p)
+        r = "1" if libc.fnmatch(p.encode(), s.encode(), 0) == 0 else "0"
+        chk.cov["disagreements_checked"] += 1
+        if r != m:
+            chk.disagreement("fnmatch(%r, %r) = %s, model glob = %s" % (p, s, r, m), {"pattern": p, "string": s})
+    chk.count("glob-vs-fnmatch", len(pairs))
+
+
+def check_C09(chk):
+    run_C09(chk)
+    return chk.finish()
 
 
 def verdict_cases(chk):
-    pass
+    """C01's runner part: kept light - the exit status comparisons of run_C09 without the proof files."""
+    return None
+
+
+CHECKS = {"C09": check_C09}
